@@ -263,7 +263,7 @@ def lagrangian_bound(vars_, objective, constraints, weights, box):
                 direct += t
                 scale = max(scale, abs(t), float(np.abs(w) @ S._bc(tree.mg(x), tree.L)))
         out["x"], out["direct"] = x, direct
-        assert abs(direct - out["value"]) <= 1e-7 * scale, ("oracle self-check: epigraph LP value %r, formula at its minimiser %r"
+        assert abs(direct - out["value"]) <= 1e-5 * scale, ("oracle self-check: epigraph LP value %r, formula at its minimiser %r"
                                                          % (out["value"], direct))
     return out
 
